@@ -66,3 +66,46 @@ def pwl_copy_independent(x, y1, y2, fac):
     g = f.copy()
     f.mul_scalar(fac)
     return g.x, g.y1, g.y2, f.y1, f.y2
+
+
+# query ; add ; scale ; query  -- against a fresh object with the same content (C10 / C11: no state survives an update)
+def pwc_query_add_query(x0, y0, x, y, a, b, fac):
+    f = PieceWiseConstFunc(x0, y0)
+    g = PieceWiseConstFunc(x, y)
+    r1 = f.integral((a, b))
+    v1 = f.avrg((a, b))
+    f.add(g)
+    f.mul_scalar(fac)
+    r2 = f.integral((a, b))
+    v2 = f.avrg((a, b))
+    h = PieceWiseConstFunc(f.x, f.y)
+    r3 = h.integral((a, b))
+    v3 = h.avrg((a, b))
+    return r1, v1, r2, v2, r3, v3
+
+
+def pwl_query_add_query(x0, y10, y20, x, y1, y2, a, b, fac):
+    f = PieceWiseLinFunc(x0, y10, y20)
+    g = PieceWiseLinFunc(x, y1, y2)
+    r1 = f.integral((a, b))
+    v1 = f.avrg((a, b))
+    f.add(g)
+    f.mul_scalar(fac)
+    r2 = f.integral((a, b))
+    v2 = f.avrg((a, b))
+    h = PieceWiseLinFunc(f.x, f.y1, f.y2)
+    r3 = h.integral((a, b))
+    v3 = h.avrg((a, b))
+    return r1, v1, r2, v2, r3, v3
+
+
+def disc_query_add_query(x0, y0, mp0, x, y, mp, a, b, fac):
+    f = DiscreteFunc(x0, y0, mp0)
+    g = DiscreteFunc(x, y, mp)
+    r1 = f.integral((a, b))
+    f.add(g)
+    f.mul_scalar(fac)
+    r2 = f.integral((a, b))
+    h = DiscreteFunc(f.x, f.y, f.mp)
+    r3 = h.integral((a, b))
+    return r1[0], r1[1], r2[0], r2[1], r3[0], r3[1]
